@@ -9,3 +9,11 @@ package tunnel
 //@ modifies Store_tunnel, Bank, Other, RouteSent
 //@ requires forall t Int :: keeper.wfTunnel(Store_tunnel, t) && keeper.wfLP(Store_tunnel, t)
 //@ ensures err == nil
+
+// ---- C02 / C14: the module's ABCI entry point returns exactly what its blocker returned --------------------------------
+// (an error of the blocker must reach the SDK, which aborts the block; swallowing it would commit whatever the failed
+// blocker had already written - e.g. a fee share taken from the fee collector but only partly paid out)
+//@ func (am AppModule) EndBlock
+//@ may_panic calls
+//@ modifies *
+//@ forwards EndBlocker
